@@ -28,7 +28,8 @@ ASSUMPTIONS = [
     "Thespian semantics as rendered in sim/actors.py (retry once, then PoisonMessage to the sender; ChildActorExited to the parent of a dead actor)",
     "single faults only; 'bounded time' is virtual time under the drawn bounds on message delay (<= 7 s) and wake-up lateness",
     "a killed worker counts as a fault only while it still has join points to report (a worker that dies after its last report cannot change the outcome)",
-    "results stored before race control has learnt about a cancellation are not counted against the cancellation",
+    "results stored (or Success sent) before race control has learnt about a cancellation are not counted against the cancellation",
+    "messages an actor sends to itself are not delayed",
 ]
 BUDGET = {"quick": 1200, "thorough": 8000}
 REQUIRED_CLASSES = {
@@ -119,7 +120,11 @@ def run_case(case, obs):
         obs.check(r.outcome == "user-interrupted", "cancel-not-reported", f"cancel at {r.fired_at}: race() ended with {r.outcome} {str(r.error)[:200]}")
     else:
         obs.check(r.outcome == "rally-error", "failure-reported-as-success", f"fault {fault} fired at {r.fired_at:.3f}: race() ended with {r.outcome}")
-    obs.check(not successes, "success-sent", f"fault fired at {r.fired_at} but Success was sent at {successes}")
+    # (a Success that BenchmarkActor sends *after* the failure notification is never read by race control: race() has already raised.
+    #  What counts is the first reply, i.e. the outcome of race() checked above.)
+    first_reply = [type(m).__name__ for _, m, _ in r.inbox][:1]
+    if kind != "cancel":
+        obs.check(first_reply != ["Success"], "success-before-failure", f"fault fired at {r.fired_at} but the first reply to race control was Success")
     # 2. in bounded (virtual) time
     if r.outcome in ("rally-error", "user-interrupted"):
         bound = r.fired_at + 2 * (wake + 0.125) + 6 * max_delay + 2 * longest + 2.0
